@@ -48,6 +48,16 @@ pub fn violation_keys(o: &Outcome, job: &DJob) -> Vec<(Value, String)> {
                     ),
                 ));
             }
+            for k in strs(&v["retargeted_kinds"]) {
+                out.push((
+                    json!({"class":"broken_reference_replaced","link":k}),
+                    format!(
+                        "fault {} -> Ok(model) in which an untouched element now refers to an element of another name: {}",
+                        fault,
+                        strs(&v["retargeted"]).join("; ")
+                    ),
+                ));
+            }
             if v["check_n"].as_u64().unwrap_or(0) > 0 && strs(&v["broken_kinds"]).is_empty() {
                 out.push((
                     json!({"class":"checker_warns","link":"check() not empty on a model the closure predicate accepts"}),
@@ -184,7 +194,7 @@ pub fn run(tier: &str, seed: u64, replay: Option<String>) -> i32 {
     let mut line_jobs: Vec<DJob> = vec![];
     for f in &files {
         let mut js = diskrun::jobs_for(f, diskfault::enumerate_c19(f, false), 1, false, true);
-        js.retain(|j| matches!(j.edit, Edit::DelLine { .. } | Edit::DupLine { .. } | Edit::RenameQuoted { .. } | Edit::NumToText { .. } | Edit::NumOor { .. } | Edit::BlockRemoved { .. }));
+        js.retain(|j| matches!(j.edit, Edit::DelLine { .. } | Edit::DupLine { .. } | Edit::RenameQuoted { .. } | Edit::NumToText { .. } | Edit::NumOor { .. } | Edit::BlockRemoved { .. } | Edit::RefRetarget { .. }));
         line_jobs.extend(js);
     }
     // generated projects: one block written twice (every block type)
